@@ -40,6 +40,38 @@ mod treegen;
 
 use report::Report;
 
+/// Allocation cap: a mutant (or defect) that allocates without bound must end as an abort of the
+/// process running the case, not as the machine's OOM killer picking a victim.
+struct CapAlloc;
+static ALLOC_USED: std::sync::atomic::AtomicUsize = std::sync::atomic::AtomicUsize::new(0);
+static ALLOC_CAP: std::sync::atomic::AtomicUsize = std::sync::atomic::AtomicUsize::new(usize::MAX);
+unsafe impl std::alloc::GlobalAlloc for CapAlloc {
+    unsafe fn alloc(&self, l: std::alloc::Layout) -> *mut u8 {
+        let n = ALLOC_USED.fetch_add(l.size(), std::sync::atomic::Ordering::Relaxed);
+        if n.saturating_add(l.size()) > ALLOC_CAP.load(std::sync::atomic::Ordering::Relaxed) {
+            std::process::abort();
+        }
+        std::alloc::System.alloc(l)
+    }
+    unsafe fn dealloc(&self, p: *mut u8, l: std::alloc::Layout) {
+        ALLOC_USED.fetch_sub(l.size(), std::sync::atomic::Ordering::Relaxed);
+        std::alloc::System.dealloc(p, l)
+    }
+    unsafe fn realloc(&self, p: *mut u8, l: std::alloc::Layout, new_size: usize) -> *mut u8 {
+        if new_size > l.size() {
+            let n = ALLOC_USED.fetch_add(new_size - l.size(), std::sync::atomic::Ordering::Relaxed);
+            if n.saturating_add(new_size - l.size()) > ALLOC_CAP.load(std::sync::atomic::Ordering::Relaxed) {
+                std::process::abort();
+            }
+        } else {
+            ALLOC_USED.fetch_sub(l.size() - new_size, std::sync::atomic::Ordering::Relaxed);
+        }
+        std::alloc::System.realloc(p, l, new_size)
+    }
+}
+#[global_allocator]
+static GLOBAL: CapAlloc = CapAlloc;
+
 pub struct Cfg {
     pub tier_thorough: bool,
     pub seed: u64,
@@ -53,6 +85,12 @@ fn main() {
         std::panic::set_hook(Box::new(|_| {}));
     }
     let args: Vec<String> = std::env::args().collect();
+    // workers get 4 GiB, the coordinating process 24 GiB (override with CVH_MEM_CAP_MB)
+    {
+        let default_mb: usize = if args.get(1).map(|a| a == "worker").unwrap_or(false) { 4096 } else { 24576 };
+        let mb = std::env::var("CVH_MEM_CAP_MB").ok().and_then(|v| v.parse().ok()).unwrap_or(default_mb);
+        ALLOC_CAP.store(mb.saturating_mul(1 << 20), std::sync::atomic::Ordering::Relaxed);
+    }
     if args.len() < 3 {
         eprintln!("usage: cvh run <Cid> [--tier T] [--seed N] [--full] [--out F] | cvh replay <Cid> <kind> <input>");
         std::process::exit(2);
@@ -99,7 +137,7 @@ fn main() {
         "worker" => match args[2].as_str() {
             "C01" => worker::worker_main(c01::worker_case),
             "C06" => worker::worker_main(c06::worker_case),
-            "C05" => c05::worker(),
+            "C05" => worker::worker_main(c05::worker_case),
             _ => std::process::exit(2),
         },
         "regen" => {
